@@ -586,6 +586,21 @@ def fam_C02(rng, tier):
         s.feed(m.ack('pubrel', pid))
         s.feed(m.ack('pubrel', pid, 0x92, [(31, b'nf')]))
     out.append(s.script())
+    # a PUBLISH by topic alias: after CONNECT announced Topic Alias Maximum > 0 the server may send an EMPTY topic name with an
+    # alias it has bound before (round 11, C02-k: "topic names are at least one character long" added to the decoder)
+    for qos in (0, 1, 2):
+        for tam in (1, 4, 65535):
+            s = Sess(f'c02-alias-empty-{qos}-{tam}')
+            s.connect([('cid', b'c'), ('tam', tam)])
+            op, sid = s.subscribed_stream()
+            s.feed(m.publish(b'a/b', b'one', qos, 11 if qos else None, 0, 0, [(35, 1), (11, sid)]))
+            if qos == 2:
+                s.feed(m.ack('pubrel', 11))
+            s.feed(m.publish(b'', b'two', qos, 12 if qos else None, 0, 0, [(35, 1), (11, sid)]))
+            s.feed(m.publish(b'', b'', qos, 13 if qos else None, 0, 1, [(11, sid), (35, tam)]))
+            s.ping()
+            s.feed(m.pingresp())
+            out.append(s.script())
     return out
 
 
@@ -2320,6 +2335,30 @@ def fam_C11(rng, tier):
         s.live_ops.pop(o, None)
     s.feed(m.ack('puback', p0))
     out.append(s.script())
+    # a request REJECTED by its builder (no topic filter / no topic) exactly where the counter wraps (round 11, C11-k: the
+    # identifier of a rejected request handed back with fetch_sub: 0 after the wrap, unwrap panic in the next allocation)
+    for before in ([65534] if tier == 'quick' else [65533, 65534, 65535]):
+        s = Sess(f'c11-reject-wrap-{before}')
+        s.connect()
+        s.add('CLONE h0 h1')
+        for i in range(before):
+            o, p_ = s.publish(1, i % 2)
+            s.feed(m.ack('puback', p_))
+            s.live_ops.pop(o, None)
+        bad = s.new_op()
+        s.add(f'OP {bad} h0 SUBSCRIBE')           # refused: no topic filter
+        s.alloc_pid(); s.alloc_sub()              # (the identifiers are taken before the builder refuses)
+        bad2 = s.new_op()
+        s.add(f'OP {bad2} h1 PUBLISH q=1')        # refused: no topic
+        s.alloc_pid()
+        o1, p1 = s.publish(2, 1)
+        o2, p2, sid2 = s.subscribe(h=0)
+        o3, p3 = s.unsubscribe([b'a'], 1)
+        s.feed(m.ack('pubrec', p1))
+        s.feed(m.suback(p2, [0]))
+        s.feed(m.unsuback(p3, [0]))
+        s.feed(m.ack('pubcomp', p1))
+        out.append(s.script())
     # the same window filled with what takes NO identifier (QoS 0 publishes, then pings): 65 534 publishes while one operation is
     # outstanding, then a second identifier-taking operation (round 10, C11-j: every publish() consumed a counter value)
     s = Sess('c11-qos0-fill')
@@ -2700,6 +2739,35 @@ def fam_C13(rng, tier):
                 s.feed(resp)
                 s.add('FEEDEOF')
             out.append(s.script())
+    # an undecodable (but well-framed) packet that is ALREADY READABLE when the previous packet has been handled: behind a valid
+    # packet in the same read, or in a second read fed while the context task was held (round 11, C13-k: the loop that serves
+    # what is already readable dropped the decoding error). run() must return the error, and write / complete nothing later
+    # (packets the oracles' own parser calls malformed too: an unknown reason code alone is not enough for it)
+    bads = [bytes([0xe0, 0x03, 0x00, 0x01, 0x7f]), bytes([0x40, 0x01, 0x00]), bytes([0x90, 0x02, 0x00, 0x01]), bytes([0x31, 0x01, 0x00]),
+            bytes([0x20, 0x01, 0x00]), bytes([0x62, 0x01, 0x00])]
+    for bi, bad in enumerate(bads):
+        for how in ('same-read', 'held', 'alone'):
+            for lead in ('pingresp', 'publish', 'puback'):
+                if how == 'alone' and lead != 'pingresp':
+                    continue
+                s = Sess(f'c13-bad-behind-{bi}-{how}-{lead}')
+                s.connect()
+                op, sid = s.subscribed_stream()
+                o1, p1 = s.publish(1)
+                pg = s.ping()
+                good = {'pingresp': m.pingresp(), 'publish': m.publish(b'a', b'x', 1, 5, 0, 0, [(11, sid)]), 'puback': m.ack('puback', p1)}[lead]
+                if how == 'same-read':
+                    s.feed(good + bad)
+                elif how == 'held':
+                    s.add('HOLD ctx')
+                    s.feed(good)
+                    s.feed(bad)
+                    s.add('RELEASE ctx')
+                else:
+                    s.feed(bad)
+                s.feed(m.disconnect(0, form='empty'))
+                s.feed(m.pingresp())
+                out.append(s.script())
     return out
 
 
@@ -3069,6 +3137,22 @@ def fam_C16(rng, tier):
                 if spurious and rng.random() < 0.5:
                     ls.append('POLL ' + rng.choice(tasks))
             out.append((f'{name}#{vn}', ls))
+    # outbound packets far larger than any internal slice (round 11, C16-k: write() cut the packet into 64 KiB slices with a
+    # bare `pending!()` in between): wake-only, sweeping and spuriously polled executors x writer policies must agree
+    for size in ([70000, 150000] if tier == 'quick' else [65535, 65536, 65537, 70000, 131072, 150000, 300000]):
+        for qos in (0, 1):
+            for variant, cfg in [('wake', 'exec=wake'), ('sweep', 'exec=sweep'), ('spurious', 'exec=wake'), ('wrpend', 'exec=wake wr=pend')]:
+                s = Sess(f'c16-bigout-{size}-q{qos}#{variant}', cfg)
+                s.connect()
+                op, pid = s.publish(qos, fields=[('p', b'B' * size)])
+                if variant == 'spurious':
+                    s.add('POLL ctx')
+                    s.add(f'POLL op{op}')
+                if qos:
+                    s.feed(m.ack('puback', pid))
+                s.ping()
+                s.feed(m.pingresp())
+                out.append(s.script())
     out += coincide_scripts('c16', groups=True)
     # run() has returned, the Context object is still alive: parked streams and pending operations stay exactly as they are
     # under extra polls (groups: wake / sweep / spurious POLLs)
@@ -3256,6 +3340,35 @@ def fam_C17(rng, tier):
         s.add('DROPFUT')
         s.add('SNAP')
         out.append(s.script())
+    return out
+
+
+def long_packet_cuts(prefix, tier='quick'):
+    """Inbound packets whose remaining length needs 2 or 3 bytes, the read cut after every byte of the fixed header (alone, or
+    behind other whole packets of the same read), the rest following later: every one is acknowledged / delivered / completes
+    its operation as if it had arrived whole (round 11, C08-k: length field parsed from a read that ends inside it and then
+    cached). The framing itself is C03's; here every ACTOR check sees long packets in pieces under its own oracle."""
+    out = []
+    for total in ((200, 20000) if tier == 'quick' else (127, 128, 200, 16383, 16384, 20000, 70000)):
+        for qos in (0, 1, 2):
+            for lead in (0, 1):
+                for cut in (1, 2, 3, 4):
+                    s = Sess(f'{prefix}-longcut-{total}-q{qos}-{lead}-{cut}')
+                    s.connect()
+                    op, sid = s.subscribed_stream()
+                    o1, p1 = s.publish(1)
+                    big = m.publish(b'a', b'z' * total, qos, 21 if qos else None, 0, 0, [(11, sid)])
+                    head = (m.ack('puback', p1) + m.publish(b'a', b'small', 1, 20, 0, 0, [(11, sid)])) if lead else b''
+                    s.feed(head + big[:cut])
+                    s.feed(big[cut:cut + 1])
+                    s.feed(big[cut + 1:] + m.publish(b'a', b'after', 1, 22, 0, 0, [(11, sid)]))
+                    if not lead:
+                        s.feed(m.ack('puback', p1))
+                    if qos == 2:
+                        s.feed(m.ack('pubrel', 21))
+                    s.ping()
+                    s.feed(m.pingresp())
+                    out.append(s.script())
     return out
 
 
@@ -3516,7 +3629,7 @@ REACTIVE = ('C05', 'C06', 'C07', 'C08', 'C09', 'C10', 'C11', 'C12', 'C13', 'C15'
 
 def with_common(fam, prefix, **kw):
     def f(rng, tier):
-        out = fam(rng, tier) + fam_common(rng, tier, prefix, **kw) + reconnect_matrix(prefix, tier)
+        out = fam(rng, tier) + fam_common(rng, tier, prefix, **kw) + reconnect_matrix(prefix, tier) + long_packet_cuts(prefix, tier)
         if tier != 'quick' and prefix.upper() in ACTOR and os.environ.get('VERIF_UNION', '1') != '0':
             # thorough tier: additionally the quick families of every OTHER actor property, judged by this property's
             # oracle and the correspondence comparison (a change that breaks this property often needs a situation that
